@@ -24,6 +24,7 @@ type LLoad struct {
 	Saves  []LSave          `json:"saves,omitempty"`  // editor saves before this load (whole files)
 	Entry  string           `json:"entry"`            // load | eval
 	Tops   []int            `json:"tops,omitempty"`   // eval: packages imported by the evaluated text
+	Lead   int              `json:"lead,omitempty"`   // eval: bit i set = a plain statement precedes the i-th import
 	Faults []core.DiskFault `json:"faults,omitempty"` // Op relative to the first disk operation of the load
 	During []LSaveAt        `json:"during,omitempty"` // editor saves between the load's disk operations
 	NestAt int              `json:"nest_at,omitempty"`
@@ -83,6 +84,7 @@ func (e loader) genLoad(r *core.PRNG, w *LWorld, faulty bool, depth int) LLoad {
 		for i := 0; i < n; i++ {
 			l.Tops = append(l.Tops, 1+r.Intn(len(w.Pkgs)-1))
 		}
+		l.Lead = r.Intn(4)
 	}
 	if w.Versions > 1 {
 		n := r.Intn(4)
@@ -277,8 +279,12 @@ func (run *loaderRun) doLoad(l *LLoad, depth int) {
 	if l.Entry == "eval" && len(l.Tops) > 0 {
 		tops = nil
 		var src []string
-		for _, t := range l.Tops {
+		for i, t := range l.Tops {
 			if t > 0 && t < len(run.w.Pkgs) {
+				if l.Lead&(1<<uint(i)) != 0 {
+					// an import need not be the first statement of an evaluated text
+					src = append(src, fmt.Sprintf("lead%d := %d", i, i))
+				}
 				src = append(src, fmt.Sprintf("import %q", run.w.Pkgs[t].Path))
 				tops = append(tops, t)
 			}
